@@ -329,3 +329,71 @@ func constructorField(v ssa.Value, path ...string) (val ssa.Value, inCallee bool
 	}
 	return fv, true, true
 }
+
+// deltaHelper: g is a private method of the storage that, on every path, performs one write of the given
+// kind (mapdelete / mapupdate) to a map field of its receiver under a key that is one of its parameters
+// (a "retire this id" / "record this id" helper). Returns the field, the kind and the parameter positions.
+func (p *Prog) deltaHelper(g *ssa.Function) (fr fieldRef, kind string, keyIdx, valIdx int, ok bool) {
+	if g == nil || g.Pkg != p.RootSSA || len(g.Blocks) == 0 || g.Object() == nil || g.Object().Exported() || recvName(g) != storageT {
+		return
+	}
+	var the *fieldWrite
+	n := 0
+	eachInstr(g, func(in ssa.Instruction) {
+		fw, isW := fieldWriteOf(in)
+		if !isW || (fw.Kind != "mapdelete" && fw.Kind != "mapupdate") || !sameValue(fw.Ref.Base, g.Params[0]) {
+			return
+		}
+		n++
+		w := fw
+		the = &w
+	})
+	if n != 1 {
+		return
+	}
+	keyIdx, valIdx = -1, -1
+	for i, q := range g.Params {
+		if canon(the.Key) == ssa.Value(q) {
+			keyIdx = i
+		}
+		if the.Val != nil && canon(stripIface(the.Val)) == ssa.Value(q) {
+			valIdx = i
+		}
+	}
+	if keyIdx < 0 {
+		return
+	}
+	if successReturnAvoiding(g, nil, func(z ssa.Instruction) bool { return z == the.Instr }) != nil {
+		return
+	}
+	return the.Ref, the.Kind, keyIdx, valIdx, true
+}
+
+func stripIface(v ssa.Value) ssa.Value {
+	if mi, ok := v.(*ssa.MakeInterface); ok {
+		return mi.X
+	}
+	return v
+}
+
+// fieldWriteOfX is fieldWriteOf that also sees a call of a deltaHelper as the write it performs.
+func (p *Prog) fieldWriteOfX(in ssa.Instruction) (fieldWrite, bool) {
+	if fw, ok := fieldWriteOf(in); ok {
+		return fw, true
+	}
+	c, ok := in.(*ssa.Call)
+	if !ok {
+		return fieldWrite{}, false
+	}
+	g := c.Call.StaticCallee()
+	fr, kind, ki, vi, ok := p.deltaHelper(g)
+	if !ok || ki >= len(c.Call.Args) {
+		return fieldWrite{}, false
+	}
+	fr.Base = c.Call.Args[0]
+	var val ssa.Value
+	if vi >= 0 && vi < len(c.Call.Args) {
+		val = c.Call.Args[vi]
+	}
+	return fieldWrite{fr, kind, in, c.Call.Args[ki], val}, true
+}
